@@ -25,14 +25,14 @@ def witness(title_prefix):
 
 
 
-from props._skiptable import skip_table
+from props._skiptable import skip_table, run_outcome_table
 
 
 from props._em import EMStream, em_table
 
 
 def tables(ctx):
-    return [skip_table(), em_table()]
+    return [skip_table(), em_table(), run_outcome_table()]
 
 
 class EM(EMStream):
@@ -46,8 +46,9 @@ class Run(PropRunStream):
     oracles = ("C11",)
     quick_cases = 480
     quick_seconds = 60
-    p_fault = 0.9
-    corpus = [witness("D17 "), witness("D10 "), W2.EMPTY_BACKEND_ERROR]
+    p_fault = 0.7
+    p_both = 0.25               # a backend failure and a keyboard interrupt in the same run, in either order
+    corpus = [witness("D17 "), witness("D10 "), W2.EMPTY_BACKEND_ERROR, W2.FAULT_THEN_INTERRUPT, W2.INTERRUPT_THEN_FAULT]
 
 
 def streams(ctx):
